@@ -94,6 +94,22 @@ class Lower:
                         out.append('TApplicable')
                         i = j + 1
                         continue
+                # third accepted form: for (size_t i = 0; i < m.specs.size(); ++i) if (mask[i]) applicable.push_back(&m.specs[i]);
+                if j < len(stmts) and stmts[j][0] == 'for':
+                    f = stmts[j]
+                    ok3 = (f[1] and f[1][0] == 'decl' and len(f[1][2]) == 1 and f[1][2][0][1] == ('num', 0))
+                    if ok3:
+                        iv = f[1][2][0][0]
+                        push3 = ('expr', ('call', ('member', ('id', 'applicable'), 'push_back', False), [('un', '&', ('index', ('member', ('id', 'm'), 'specs', False), ('id', iv)))]))
+                        fb = nonempty(f[4][1] if f[4][0] == 'block' else [f[4]])
+                        ok3 = (f[2] == ('bin', '<', ('id', iv), ('call', ('member', ('member', ('id', 'm'), 'specs', False), 'size', False), []))
+                               and f[3] in (('un', '++', ('id', iv)), ('post', '++', ('id', iv)))
+                               and fb in ([('if', False, ('index', ('id', 'mask'), ('id', iv)), ('block', [push3]), None)], [('if', False, ('index', ('id', 'mask'), ('id', iv)), push3, None)]))
+                    if ok3:
+                        self.have.add('applicable')
+                        out.append('TApplicable')
+                        i = j + 1
+                        continue
                 if i + 2 >= len(stmts):
                     self.bad('`applicable` is declared but not filled by the filter loop', st)
                 d2, lp = stmts[i + 1], stmts[i + 2]
@@ -260,6 +276,16 @@ def lower_next(sp, stmts, whole):
             if e[0] == 'assign' and e[1] == '=' and e[2] == ('id', 'next'):
                 return '(NSetNext %s)' % val(e[3], env)
             bad('expression statement not in the subset', st)
+        if k == 'rangefor' and isinstance(st[1], str) and st[2] == ('id', 'specs'):
+            # for (const definition* other : specs) { if (is_base(other, &spec)) candidates.push_back(other); }    (specs: every definition, in order)
+            o = st[1]
+            push = ('expr', ('call', ('member', ('id', 'candidates'), 'push_back', False), [('id', o)]))
+            test = ('call', ('id', 'is_base'), [('id', o), ('un', '&', ('id', sp))])
+            body = nonempty(st[3][1] if st[3][0] == 'block' else [st[3]])
+            if body in ([('if', False, test, ('block', [push]), None)], [('if', False, test, push, None)]):
+                have.add('candidates')
+                return 'NCandidates'
+            bad('loop over specs inside the next loop is not the candidate filter', st)
         if k == 'rangefor' and isinstance(st[1], str) and st[2] == ('member', ('id', 'm'), 'specs', False):
             # for (const definition& other : m.specs) { if (is_base(&other, &spec)) candidates.push_back(&other); }
             o = st[1]
@@ -286,7 +312,10 @@ def lower_next(sp, stmts, whole):
                       ('call', ('id', 'std::back_inserter'), [('id', 'specs')]),
                       ('lambda', [], ['spec'], ('block', [('return', ('un', '&', ('id', 'spec')))]))]))
     text = seq(stmts, {})
-    if 'direct' not in have and allspecs not in whole:
+    allspecs_loop = any(repr(('rangefor', v, ('member', ('id', 'm'), 'specs', False),
+                              ('block', [('expr', ('call', ('member', ('id', 'specs'), 'push_back', False), [('un', '&', ('id', v))]))]))) in whole
+                        for v in ('spec', 's', 'definition', 'def', 'd'))
+    if 'direct' not in have and allspecs not in whole and not allspecs_loop:
         raise mc.Unsupported('build_dispatch_tables: `specs` is no longer filled with the address of every definition of the method, in order')
     return text
 
